@@ -411,6 +411,18 @@ def _blockify(check: Check):
     check.ob('R-MASK.blockify-max', fi, f'{NB}[0] is the maximum', ok_sort,
              f'`{NB}[0]` is taken as the largest batch count of the block: that needs an unconditional descending sort of the clients by '
              'batch count (a block whose first client is not the longest silently drops the extra batches of the others)')
+  # client ids are only required to be hashable: a sort key that contains the id compares ids of equal-length clients (TypeError
+  # for ids of different types, and a different block layout than the other backends' order)
+  for n, c in sorts:
+    for k in c.keywords:
+      if k.arg == 'key' and isinstance(k.value, ast.Lambda) and k.value.args.args:
+        a = k.value.args.args[0].arg
+        bad = [x for x in ast.walk(k.value.body) if isinstance(x, ast.Subscript) and isinstance(x.value, ast.Name) and x.value.id == a and txt(
+            x.slice) in ('0', '-3')] + [x for x in ast.walk(k.value.body) if isinstance(x, ast.Name) and x.id == a and not isinstance(
+                fi.module.parent_of.get(x), ast.Subscript)]
+        check.ob('R-MASK.blockify-key', fi, txt(k.value)[:70], not bad,
+                 'clients are ordered by their batch count only: the client id must not be part of the sort key (ids need not be orderable)',
+                 node=c, exact=True)
   if not ok_ctor:
     return
 
